@@ -64,7 +64,7 @@ def strategy_case(draw):
                                "to_qtt_ttm", "qtt_roundtrip"]))
     dt = draw(st.sampled_from(["f64", "f64", "c128", "c128", "f32", "c64"]))
     case = {"op": op, "dt": dt, "seed": draw(gen.SEED), "scramble": draw(st.sampled_from([0, 0, 0, 1, 1e2, 1e4])),
-            "scale_exp": draw(st.sampled_from([0, 0, 0, -8, -4, 3, 6])), "scale_core": draw(st.integers(0, 5)),
+            "scale_exp": draw(st.sampled_from([0, 0, 0, -8, -4, 3, 6, -20, 20])), "scale_core": draw(st.integers(0, 5)),
             "eps": draw(st.sampled_from([None, None, "log", "log", "log"]))}
     if case["eps"] == "log":
         case["eps"] = 10 ** draw(st.floats(-14, -1))
@@ -149,6 +149,8 @@ def execute(case):
         k = case["scale_core"] % d
         cores[k] = cores[k] * (10.0 ** case["scale_exp"])
         ck.label("scaled:1e%d" % case["scale_exp"])
+        if abs(case["scale_exp"]) == 20:
+            ck.label("scaled:extreme")
     cores = [c.to(DT[dt]).contiguous() for c in cores]
     x = T.TT([c.clone() for c in cores])
     xd = dense(cores)
